@@ -1,7 +1,8 @@
 import QR.Model.Render
 import QR.Spec.Render
+import QR.Proofs.Text
 /-
-C15 - terminal renderings read back to the module matrix.  (General theorems under construction.)
+C15 - terminal renderings read back to the module matrix.
 -/
 namespace QR.Props
 open QR QR.Model
@@ -13,5 +14,46 @@ theorem C15_example :
     ((Spec.readHalfBlocks true (printAscii M 3 1 false true)).map (·.take 5) == some (Spec.frame M 3 1)) &&
     ((Spec.readHalfBlocks true (printAscii M 3 1 true false)).map (·.take 5) == some (Spec.frame M 3 1)) &&
     (Spec.readTty (printTty M 3) == some (Spec.frame M 3 1)) = true := by decide +kernel
+
+/-- **C15 (print_ascii)**: for every n x n matrix, every border and all four (tty, invert) combinations, the half-block
+text read back by the independent reader `Spec.readHalfBlocks` (SGR escapes stripped, lines split at newlines, each
+glyph decoded to its upper/lower ink; ink = dark normally, ink = light when inverted, and tty forces invert) is
+exactly the symbol framed by `border` light modules.  When the height n + 2*border is odd the last text line carries
+a phantom lower half-row, which `take` drops.  Holds for n = 0 and border = 0 as well. -/
+theorem C15_ascii (M : List (List Bool)) (n border : Nat)
+    (hlen : M.length = n) (hrow : ∀ row ∈ M, row.length = n) (tty invert : Bool) :
+    (Spec.readHalfBlocks (invert || tty) (printAscii M n border tty invert)).map (·.take (n + 2 * border))
+      = some (Spec.frame M n border) :=
+  Proofs.Text.readHalfBlocks_printAscii M n border hlen hrow tty invert
+
+/-- every text line of `print_ascii` (escapes stripped) has exactly n + 2*border glyphs, and there are
+ceil((n + 2*border) / 2) lines -/
+theorem C15_ascii_lines (M : List (List Bool)) (n border : Nat) (tty invert : Bool) :
+    let text := printAscii M n border tty invert
+    let lines := Spec.splitLines (text.length + 1) (Spec.stripSgr (text.length + 1) text)
+    lines.length = (n + 2 * border + 1) / 2 ∧ ∀ line ∈ lines, line.length = n + 2 * border :=
+  ⟨Proofs.Text.printAscii_line_count M n border tty invert, Proofs.Text.printAscii_line_length M n border tty invert⟩
+
+/-- **C15 (print_tty)**: for every n x n matrix the colour-escape text read back by `Spec.readTty` (background 47 =
+light, 40 = dark, two spaces per module) is exactly the symbol framed by one light module -/
+theorem C15_tty (M : List (List Bool)) (n : Nat)
+    (hlen : M.length = n) (hrow : ∀ row ∈ M, row.length = n) :
+    Spec.readTty (printTty M n) = some (Spec.frame M n 1) :=
+  Proofs.Text.readTty_printTty M n hlen hrow
+
+/-- non-vacuity: instances of the general theorems on a concrete 2 x 2 symbol, with the expected matrix spelled out;
+the reader is not constant (a different symbol reads back differently) and rejects foreign text -/
+example : (Spec.readHalfBlocks true (printAscii [[true, false], [true, true]] 2 1 true false)).map (·.take 4) =
+    some [[false, false, false, false], [false, true, false, false], [false, true, true, false],
+      [false, false, false, false]] :=
+  (C15_ascii [[true, false], [true, true]] 2 1 rfl (by decide) true false).trans (by decide)
+example : Spec.readTty (printTty [[true, false], [true, true]] 2) =
+    some [[false, false, false, false], [false, true, false, false], [false, true, true, false],
+      [false, false, false, false]] :=
+  (C15_tty [[true, false], [true, true]] 2 rfl (by decide)).trans (by decide)
+example : Spec.readTty (printTty [[true]] 1) ≠ Spec.readTty (printTty [[false]] 1) := by
+  rw [C15_tty [[true]] 1 rfl (by decide), C15_tty [[false]] 1 rfl (by decide)]; decide
+example : Spec.readHalfBlocks false [65, 10] = none := by decide
+example : Spec.readTty [65, 10] = none := by decide
 
 end QR.Props
